@@ -4,3 +4,4 @@ pub mod trees;
 pub mod prec;
 pub mod lexmodel;
 pub mod layoutmodel;
+pub mod desugar;
